@@ -547,6 +547,8 @@ def c15_os2(run, fx):
 
 
 def check(run, fx, tier, floors=True):
+    import ignored
+    ignored.run_for(run, fx, 'C15', floors)
     if floors or fx.body("<tables::os2::Os2 as binary::read::ReadBinaryDep>::read_dep") is not None:
         c15_os2(run, fx)
     import speclayout
